@@ -308,6 +308,26 @@ impl SingleCheck {
         }
     }
 
+    /// One case in 32 (decided by the last value of the configuration tape) is run
+    /// on a fresh thread *after* another run on another, small graph, decoded from
+    /// the same tapes read backwards.
+    pub fn decode_pre(&self, tapes: &[Vec<u16>]) -> Option<(GraphSpec, RunCfg)> {
+        let v = *tapes[1].last()?;
+        if v % 32 != 0 {
+            return None;
+        }
+        let rev0: Vec<u16> = tapes[0].iter().rev().copied().collect();
+        let rev1: Vec<u16> = tapes[1].iter().rev().copied().collect();
+        let mut p = self.profile.clone();
+        p.pct_wide = 0;
+        p.permille_huge = 0;
+        p.pct_medium = 10;
+        p.max_n = 12;
+        let spec = decode_spec(&mut Tape::new(&rev0), &p);
+        let cfg = decode_cfg(&mut Tape::new(&rev1), &p, spec.n(), INTR);
+        Some((spec, cfg))
+    }
+
     pub fn decode(&self, tapes: &[Vec<u16>]) -> (GraphSpec, RunCfg) {
         let mut gt = Tape::new(&tapes[0]);
         let spec = decode_spec(&mut gt, &self.profile);
@@ -357,26 +377,8 @@ pub fn ignore_differential(case: &SingleCase, r: &SingleResult) -> Vec<Violation
     out
 }
 
-impl Check for SingleCheck {
-    fn name(&self) -> String {
-        format!("single:{}", self.prop)
-    }
-    fn tape_lens(&self) -> Vec<usize> {
-        self.tape_lens.to_vec()
-    }
-    fn run_case(&self, tapes: &[Vec<u16>], want_decoded: bool) -> CaseReport {
-        let (spec, cfg) = self.decode(tapes);
-        let mut st = Tape::new(&tapes[2]);
-        if spec.n() >= 65 {
-            st.enable_tail();
-        }
-        let mut r = run_single(&spec, &cfg, Schedule::Tape(&mut st, self.max_actions.max(3 * spec.n() + 20), cfg.abort_after));
-        let case = SingleCase {
-            spec,
-            cfg,
-            acts: r.acts.clone(),
-        };
-        let mut executions = 1;
+impl SingleCheck {
+    fn report(&self, case: SingleCase, mut r: crate::cases::SingleResult, want_decoded: bool, mut executions: u64) -> CaseReport {
         if self.prop == "C06" {
             let extra = structural_c06(&r.facts);
             r.violations.extend(extra);
@@ -391,7 +393,13 @@ impl Check for SingleCheck {
         CaseReport {
             nontrivial: nontrivial(self.prop, &case.cfg, &r),
             hash: hash_of(&case),
-            labels: labels(&case.cfg, &r),
+            labels: {
+                let mut l = labels(&case.cfg, &r);
+                if case.pre.is_some() {
+                    l.push("run:on_a_fresh_thread_after_another_run".into());
+                }
+                l
+            },
             decoded: if want_decoded {
                 Some(decoded_json(&case, &r))
             } else {
@@ -403,9 +411,85 @@ impl Check for SingleCheck {
     }
 }
 
+impl Check for SingleCheck {
+    fn run_after(&self, pre: &[Vec<u16>], tapes: &[Vec<u16>]) -> Option<CaseReport> {
+        let (pspec, pcfg) = self.decode(pre);
+        let (spec, cfg) = self.decode(tapes);
+        let (r, pre_case) = std::thread::scope(|sc| {
+            sc.spawn(|| {
+                let mut pt = Tape::new(&pre[2]);
+                if pspec.n() >= 65 {
+                    pt.enable_tail();
+                }
+                let pr = run_single(&pspec, &pcfg, Schedule::Tape(&mut pt, self.max_actions.max(3 * pspec.n() + 20), pcfg.abort_after));
+                let mut st = Tape::new(&tapes[2]);
+                if spec.n() >= 65 {
+                    st.enable_tail();
+                }
+                let r = run_single(&spec, &cfg, Schedule::Tape(&mut st, self.max_actions.max(3 * spec.n() + 20), cfg.abort_after));
+                (r, SingleCase { spec: pspec.clone(), cfg: pcfg.clone(), acts: pr.acts, pre: None })
+            })
+            .join()
+            .expect("harness thread")
+        });
+        let case = SingleCase { spec, cfg, acts: r.acts.clone(), pre: Some(Box::new(pre_case)) };
+        Some(self.report(case, r, true, 2))
+    }
+    fn name(&self) -> String {
+        format!("single:{}", self.prop)
+    }
+    fn tape_lens(&self) -> Vec<usize> {
+        self.tape_lens.to_vec()
+    }
+    fn run_case(&self, tapes: &[Vec<u16>], want_decoded: bool) -> CaseReport {
+        let (spec, cfg) = self.decode(tapes);
+        let mut st = Tape::new(&tapes[2]);
+        if spec.n() >= 65 {
+            st.enable_tail();
+        }
+        let max_actions = self.max_actions.max(3 * spec.n() + 20);
+        let pre = self.decode_pre(tapes);
+        let (r, pre) = match pre {
+            None => (run_single(&spec, &cfg, Schedule::Tape(&mut st, max_actions, cfg.abort_after)), None),
+            Some((pspec, pcfg)) => {
+                // on a fresh thread: first the other run, then this one
+                let rev2: Vec<u16> = tapes[2].iter().rev().copied().collect();
+                std::thread::scope(|sc| {
+                    sc.spawn(|| {
+                        let mut pt = Tape::new(&rev2);
+                        let pr = run_single(&pspec, &pcfg, Schedule::Tape(&mut pt, self.max_actions, pcfg.abort_after));
+                        let r = run_single(&spec, &cfg, Schedule::Tape(&mut st, max_actions, cfg.abort_after));
+                        let pre = SingleCase { spec: pspec.clone(), cfg: pcfg.clone(), acts: pr.acts, pre: None };
+                        (r, Some(Box::new(pre)))
+                    })
+                    .join()
+                    .expect("harness thread")
+                })
+            }
+        };
+        let case = SingleCase {
+            spec,
+            cfg,
+            acts: r.acts.clone(),
+            pre,
+        };
+        self.report(case, r, want_decoded, 1)
+    }
+}
+
 /// Replay a decoded single case (from a replay file): returns the violations.
 pub fn replay_single(case: &SingleCase, prop: &str) -> (SingleResult, Vec<Violation>) {
-    let mut r = run_single(&case.spec, &case.cfg, Schedule::Replay(&case.acts));
+    let mut r = match &case.pre {
+        None => run_single(&case.spec, &case.cfg, Schedule::Replay(&case.acts)),
+        Some(pre) => std::thread::scope(|sc| {
+            sc.spawn(|| {
+                let _ = run_single(&pre.spec, &pre.cfg, Schedule::Replay(&pre.acts));
+                run_single(&case.spec, &case.cfg, Schedule::Replay(&case.acts))
+            })
+            .join()
+            .expect("harness thread")
+        }),
+    };
     if prop == "C06" {
         let extra = structural_c06(&r.facts);
         r.violations.extend(extra);
@@ -415,6 +499,7 @@ pub fn replay_single(case: &SingleCase, prop: &str) -> (SingleResult, Vec<Violat
             spec: case.spec.clone(),
             cfg: case.cfg.clone(),
             acts: r.acts.clone(),
+            pre: None,
         };
         let extra = ignore_differential(&c2, &r);
         r.violations.extend(extra);
